@@ -1,5 +1,6 @@
 """C02 — JSON save/load is lossless and carries a sufficient type system."""
 from harness import casgen, common, refio, sessions
+from harness.common import bud
 
 PROP = "C02"
 MODULES = ["CassisModel.Properties.C02", "CassisModel.Properties.C02Closure"]
@@ -151,7 +152,7 @@ def run(ctx, out, budget):
                 "loaded type system; writer, reader, dump and resulting type system compared with the Lean model. Non-trivial = distinct "
                 "CASes with >= 3 structures.")
     rng = ctx.rng(0)
-    n = 150 if budget == "quick" else 15000
+    n = bud(budget, 150, 15000)
     cases = [(make_case(rng, rng.randint(1, 10)), CONFIGS[k % len(CONFIGS)]) for k in range(n)]
     run_cases(ctx, out, cases, "gen")
     out.partial = ["end-to-end round trip over whole graphs: implementation oracle + model correspondence, no theorem"]
